@@ -132,6 +132,15 @@ contract('gnpy.core.elements.Transceiver.update_snr', props=['C13', 'C01'], vara
                    ('self.snr', vec_len('len(self.raw_snr)')), ('self.osnr_ase', vec_len('len(self.raw_snr)'))],
          note='number of contributions bounded by 3 in this contract (tx OSNR + two add/drop OSNR); the loop is a fold')
 
+# receiver read-off of the accumulated impairments, in the units the penalty tables and the response use
+for _m, _attr, _src, _k in (('_calc_cd', 'chromatic_dispersion', '_chromatic_dispersion', '1e3'), ('_calc_pmd', 'pmd', '_pmd', '1e12'),
+                            ('_calc_pdl', 'pdl', '_pdl', '1'), ('_calc_latency', 'latency', '_latency', '1e3')):
+    contract(f'gnpy.core.elements.Transceiver.{_m}', props=['C05', 'C13'],
+             params={'self': obj('Transceiver', uid=string()), 'spectral_info': SI()}, spec=SPEC_EL,
+             ensures=[('what_the_path_accumulated', f'forall(lambda i: self.{_attr}[i] == spectral_info.{_src}[i] * {_k}, NCH(spectral_info))'),
+                      ('one_value_per_channel', f'len(self.{_attr}) == NCH(spectral_info)')],
+             modifies=[f'self.{_attr}'], use_at_calls=False)
+
 # ---------------------------------------------------------------- Edfa noise figure (C04)
 NF_MODEL = obj('Model_vg', nf1=real(), nf2=real(), delta_p=real(), nf0=real(), nf_coef=lst(real(), real(), real(), real()))
 
